@@ -6,6 +6,7 @@ def run(res, a):
         return conc.replay(res, "C08", a.replay)
     vlib.proof_stage(res, "C08")
     conc.run_conc(res, "C08", a.seed, a.tier)
+    conc.run_lockstep(res, "C08", a.seed, a.tier)
     res.cov["rule"] = ("scheduler harness, mode tfree: after a random phase all blocks are freed by whichever thread gets there first, then every owner "
                        "runs a forced collect and its heap must hold no pages (page_count = 0); at quiescence the main heap must report no blocks; a run "
                        "that exhausts the step budget is reported as livelock. distinct = distinct schedules")
